@@ -122,3 +122,146 @@ Proof.
   induction l as [|a l IH]; intros Hn; [constructor|]. apply NoDup_cons_iff in Hn. destruct Hn as [Ha Hn]. cbn [filter].
   destruct (f a); [|apply IH; exact Hn]. constructor; [|apply IH; exact Hn]. intros X0. apply filter_In in X0. apply Ha, X0.
 Qed.
+
+(* ===================================================================================== *)
+(* 2. reals: a target of the component with other consumers in the graph                   *)
+(* ===================================================================================== *)
+Local Open Scope R_scope.
+
+Section FcChain.
+Variables (thr : R) (draw : bool -> nat -> R).
+Local Hint Extern 0 (Scalar R) => exact (R_scalar thr draw) : typeclass_instances.
+Notation T := (tensor R).
+Notation heap := (@heap R).
+Notation rule := (@rule R).
+Notation idseal := (fun (_ : option nat) (g : T) => g).
+Notation prior := GradActP.prior.
+Notation prior_ok := GradActP.prior_ok.
+
+Lemma sumC_filter_split rd (hf hs : heap) (P : nat -> bool) n idx : forall l,
+  sumC (contributions rd hf hs l n) idx =
+  sumC (contributions rd hf hs (filter P l) n) idx + sumC (contributions rd hf hs (filter (fun c => negb (P c)) l) n) idx.
+Proof.
+  induction l as [|a l IH]; [cbn; ring|].
+  change (contributions rd hf hs (a :: l) n) with (flat_map (contrib_e rd hf n) (edgesOf hs a) ++ contributions rd hf hs l n).
+  rewrite sumC_app, IH. cbn [filter]. destruct (P a); cbn [negb].
+  - change (contributions rd hf hs (a :: filter P l) n)
+      with (flat_map (contrib_e rd hf n) (edgesOf hs a) ++ contributions rd hf hs (filter P l) n).
+    rewrite sumC_app. ring.
+  - change (contributions rd hf hs (a :: filter (fun c => negb (P c)) l) n)
+      with (flat_map (contrib_e rd hf n) (edgesOf hs a) ++ contributions rd hf hs (filter (fun c => negb (P c)) l) n).
+    rewrite sumC_app. ring.
+Qed.
+
+Lemma okPrior_ok (o : option T) ds : GradFcP.okPrior o ds <-> prior_ok ds o.
+Proof.
+  unfold GradFcP.okPrior, GradActP.prior_ok. destruct o as [g|].
+  - split; [intros Hk; apply Hk; reflexivity|intros Hk g0 Eg; inversion Eg; subst; exact Hk].
+  - split; [trivial|intros _ g0 Eg; discriminate].
+Qed.
+
+(* TARGET LEMMA.  t is an operand of the component [comp]; inside the component its only consumer is p,
+   through the single edge (t, rl); in the auxiliary run p contributes gA.  Then, in the real run,
+   t ends with  prior + (contributions of the consumers outside comp) + gA. *)
+Lemma target_grad rd (H H' hA hA' : heap) order lA comp p t rl ds gA :
+  rules_own H ->
+  NoDup order -> In p order -> In p comp ->
+  (forall c e, In c comp -> c <> p -> In e (edgesOf H c) -> fst e <> t) ->
+  In p lA -> NoDup lA -> (forall c e, In c lA -> c <> p -> In e (edgesOf hA c) -> fst e <> t) ->
+  edgesOf H p = [(t, rl)] -> edgesOf hA p = [(t, rl)] ->
+  rule_y rl = p -> (forall i, In i (rule_vals rl) -> valOf H' i = valOf hA' i) ->
+  gradOf H' p = gradOf hA' p ->
+  accAll (gradOf H t) (contributions rd H' H order t) = Some (gradOf H' t) ->
+  accAll None (contributions rd hA' hA lA t) = Some (Some gA) ->
+  wf gA -> dims gA = ds -> prior_ok ds (gradOf H t) ->
+  let out := filter (fun c => negb (memb c comp)) order in
+  (forall g, In g (contributions rd H' H out t) -> wf g /\ dims g = ds) ->
+  exists gt, gradOf H' t = Some gt /\ dims gt = ds /\ wf gt /\
+    forall idx, validIdx ds idx ->
+      elt gt idx = prior (gradOf H t) idx + sumC (contributions rd H' H out t) idx + elt gA idx.
+Proof.
+  intros Hown Hnd Hpo Hpc Hsc HpA HndA HsA EH EA Hy Hv Hgp AccT AccA WgA DgA Hpr out Hout.
+  set (P := fun c => negb (memb c comp)) in *.
+  set (inC := filter (fun c => negb (P c)) order).
+  assert (HinC : forall c, In c inC -> In c comp).
+  { intros c Hc. apply filter_In in Hc. destruct Hc as [_ Hc]. unfold P in Hc. rewrite negb_involutive in Hc. apply memb_in. exact Hc. }
+  assert (HpinC : In p inC).
+  { apply filter_In. split; [exact Hpo|]. unfold P. rewrite negb_involutive. apply memb_in. exact Hpc. }
+  (* the component's share, in both runs *)
+  assert (CR : contributions rd H' H inC t = flat_map (contrib_e rd H' t) [(t, rl)]).
+  { rewrite <- EH. apply contributions_single; [exact HpinC|apply NoDup_filter'; exact Hnd|].
+    intros c e Hc. apply Hsc. apply HinC. exact Hc. }
+  assert (CA : contributions rd hA' hA lA t = flat_map (contrib_e rd hA' t) [(t, rl)]).
+  { rewrite <- EA. apply contributions_single; assumption. }
+  assert (Eq : contrib_e rd H' t (t, rl) = contrib_e rd hA' t (t, rl)).
+  { apply contrib_e_local; cbn [snd]; [exact Hv|rewrite Hy; exact Hgp]. }
+  cbn [flat_map] in CR, CA. rewrite Eq in CR. rewrite CA in AccA.
+  assert (EgA : contrib_e rd hA' t (t, rl) = [gA]).
+  { destruct (contrib_e rd hA' t (t, rl)) as [|g1 [|g2 rest]] eqn:Ec.
+    - cbn in AccA. discriminate.
+    - cbn in AccA. congruence.
+    - exfalso. unfold contrib_e in Ec. destruct (fst (t, rl) =? t)%nat; [|discriminate].
+      destruct (eval_rule rd hA' (snd (t, rl))); discriminate. }
+  rewrite EgA in CR. cbn [app] in CR.
+  (* every contribution is well shaped *)
+  assert (Hall : forall g, In g (contributions rd H' H order t) -> wf g /\ dims g = ds).
+  { intros g Hg. destruct (contributions_filter_in rd H' H P t g order Hg) as [X|X]; [apply Hout; exact X|].
+    fold inC in X. rewrite CR in X. destruct X as [<-|[]]. split; assumption. }
+  destruct (accAll_R thr draw ds (contributions rd H' H order t) (gradOf H t) Hpr Hall) as (o' & Ea & Pok & _ & Sum).
+  rewrite Ea in AccT. inversion AccT as [Eo]. clear AccT.
+  assert (Hne : o' <> None).
+  { apply (accAll_nonempty (gradOf H t) (contributions rd H' H order t) o' Ea).
+    intros X. assert (In gA (contributions rd H' H order t)); [|rewrite X in *; contradiction].
+    assert (In gA (contributions rd H' H inC t)) by (rewrite CR; left; reflexivity).
+    unfold contributions in *. apply in_flat_map in H0. destruct H0 as (c & Hc & Hg). apply in_flat_map. exists c.
+    split; [|exact Hg]. apply filter_In in Hc. apply Hc. }
+  destruct o' as [gt|]; [|congruence]. exists gt. split; [symmetry; exact Eo|]. destruct Pok as [Wt Dt].
+  split; [exact Dt|]. split; [exact Wt|]. intros idx Hi. specialize (Sum idx Hi). cbn [GradActP.prior] in Sum. rewrite Sum.
+  rewrite (sumC_filter_split rd H' H P t idx order). fold inC. rewrite CR. fold out. cbn [sumC fold_right]. ring.
+Qed.
+
+End FcChain.
+
+(* ===================================================================================== *)
+(* 3. helpers                                                                              *)
+(* ===================================================================================== *)
+Local Open Scope nat_scope.
+Section Helpers.
+Context {A : Type} {SA : Scalar A}.
+Notation heap := (@heap A).
+
+Lemma rules_own_prefS (h1 H : heap) : prefS h1 H -> rules_own H -> rules_own h1.
+Proof.
+  intros [_ P] Ho c nd e Hn He. assert (Hc : c < length h1) by (apply nth_error_Some; congruence).
+  destruct (P c Hc) as (_ & _ & Ee). apply (rules_own_edgesOf _ Ho). rewrite <- Ee. unfold edgesOf. rewrite Hn. exact He.
+Qed.
+
+Lemma wf_heap_prefS (h1 H : heap) : prefS h1 H -> wf_heap H -> wf_heap h1.
+Proof.
+  intros [_ P] Ho c nd e Hn He. assert (Hc : c < length h1) by (apply nth_error_Some; congruence).
+  destruct (P c Hc) as (_ & _ & Ee). apply (wf_heap_edgesOf _ Ho). rewrite <- Ee. unfold edgesOf. rewrite Hn. exact He.
+Qed.
+
+(* a strictly decreasing list of nodes of a heap whose edges point to smaller ids has no back edge *)
+Fixpoint desc (l : list nat) : Prop :=
+  match l with [] => True | c :: rest => (forall c', In c' rest -> c' < c) /\ desc rest end.
+
+Lemma noback_desc (hh : heap) : wf_heap hh -> forall l, desc l -> noback hh l.
+Proof.
+  intros W. induction l as [|c l IH]; intros Hd; cbn [noback]; [trivial|]. destruct Hd as [Hc Hd]. split; [|apply IH; exact Hd].
+  intros c' e Hc' He _ X. pose proof (wf_heap_edgesOf _ W _ _ He). specialize (Hc c' Hc'). lia.
+Qed.
+
+Lemma desc_NoDup : forall l, desc l -> NoDup l.
+Proof.
+  induction l as [|c l IH]; intros Hd; [constructor|]. destruct Hd as [Hc Hd]. constructor; [|apply IH; exact Hd].
+  intros X. specialize (Hc c X). lia.
+Qed.
+
+Lemma gradOf_setGrad_same (h : heap) i g : i < length h -> gradOf (setGrad h i g) i = g.
+Proof. intros Hi. rewrite gradOf_setGrad, Nat.eqb_refl. apply Nat.ltb_lt in Hi. rewrite Hi. reflexivity. Qed.
+
+Lemma gradOf_setGrad_other (h : heap) i g j : j <> i -> gradOf (setGrad h i g) j = gradOf h j.
+Proof. intros Hj. rewrite gradOf_setGrad. apply Nat.eqb_neq in Hj. rewrite Hj. reflexivity. Qed.
+
+End Helpers.
